@@ -6,4 +6,4 @@ CFG = {"cmds": ["empty"], "oracles": ("effects",), "violations": ("effects",), "
 
 def add_world_level(ck, pid, tier, seed):
     add_worlds(ck, pid, seed, CFG, 200 if tier == "quick" else 3000)
-    ck.extra["world_level"] = "trash-empty runs (DAYS, TRASH_DATE clock, dry-run, -i) on populated trash dirs; expectation from ground-truth dates"
+    ck.extra["world_level"] = "trash-empty runs (DAYS, TRASH_DATE clock or - 15% - the real clock read in a time zone 8-12 hours from UTC with dates given as ages, dry-run, -i) on populated trash dirs; expectation from ground-truth dates"
